@@ -143,3 +143,24 @@ extern "C" void h_CreateInstance()
     __CPROVER_assert(in._m_consumed == (unsigned long)(n - 1), "C03 reading resumes at the '#' of the next instance");
     if (in_known && !in_dup && in_eq && in_objsev <= SEVERITY_WARNING) __CPROVER_assert(g_deleted_calls == 1, "an instance that could not be created properly is destroyed");
 }
+
+/* C05: a complex record #n=( A() B() C() ... ) with any number of parts is read without writing outside the part-name array (scaled to 3
+ * entries here: two names and the terminator) and the array handed on is null-terminated inside its bounds */
+extern "C" void h_CreateSubSuperInstance()
+{
+    IN(int, in_parts); IN(int, in_sev);
+    __CPROVER_assume(in_parts >= 0 && in_parts <= 4);
+    __CPROVER_assume(in_sev == SEVERITY_NULL || in_sev == SEVERITY_WARNING || in_sev == SEVERITY_INPUT_ERROR);
+    STEPfile *f = mk_file();
+    /* "( A() B() ... )" */
+    g_stream_arbitrary = 0; int n = 0; g_stream_script[n++] = '(';
+    for (int i = 0; i < 4; i++) if (i < in_parts) { g_stream_script[n++] = (char)('A' + i); g_stream_script[n++] = '('; g_stream_script[n++] = ')'; }
+    g_stream_script[n++] = ')'; g_stream_script[n++] = ';'; g_stream_len = n;
+    istream in; in._m_state = 0; in._m_have = 0; in._m_consumed = 0;
+    static long objstore[64]; g_cx_obj = (SDAI_Application_instance *)objstore; ErrorDescriptor oe((Severity)in_sev); g_obj_error = &oe; g_deleted_calls = 0; g_cx_names = -1;
+    ErrorDescriptor e;
+    SDAI_Application_instance *r = f->CreateSubSuperInstance(in, 7, e);
+    __CPROVER_assert(g_cx_names >= 0 && g_cx_names <= 2 && g_cx_names <= in_parts && g_cx_fileid == 7, "C05 the part names handed to the complex instance are a null-terminated array inside its bounds, whatever the number of parts in the record");
+    if (in_sev <= SEVERITY_WARNING) __CPROVER_assert(r == ENTITY_NULL && g_deleted_calls == 1 && e.severity() == (Severity)in_sev, "C03 an illegal combination yields no instance and its severity is handed to the caller");
+    else __CPROVER_assert(r == g_cx_obj, "a legal combination yields the instance");
+}
